@@ -193,7 +193,51 @@ func (w *World) inlinable0(fn *ssa.Function) bool {
 // covered: every use of fn is a static call from the analysed packages, each
 // of which the explorer expands in place; fn needs no analysis of its own.
 func (w *World) covered(fn *ssa.Function) bool {
+	if fn.Parent() != nil {
+		return w.closureCovered(fn)
+	}
 	return w.inlinable(fn) && !w.addrTaken[fn] && len(w.callers[fn]) > 0
+}
+
+// closureCovered: a function literal that is only ever called where it was
+// made (directly, or by a helper it is handed to that is itself expanded in
+// place) is explored inside its maker, with its free variables bound.
+func (w *World) closureCovered(fn *ssa.Function) bool {
+	if !w.closureInlinable(fn) {
+		return false
+	}
+	parent := fn.Parent()
+	made := 0
+	for _, b := range parent.Blocks {
+		for _, in := range b.Instrs {
+			mc, ok := in.(*ssa.MakeClosure)
+			if !ok || mc.Fn != ssa.Value(fn) {
+				continue
+			}
+			made++
+			refs := mc.Referrers()
+			if refs == nil {
+				return false
+			}
+			for _, ref := range *refs {
+				call, ok := ref.(*ssa.Call)
+				if !ok {
+					if _, dbg := ref.(*ssa.DebugRef); dbg {
+						continue
+					}
+					return false
+				}
+				if call.Call.Value == ssa.Value(mc) {
+					continue // called right here
+				}
+				cal := call.Call.StaticCallee()
+				if cal == nil || !w.inlinable(cal) {
+					return false
+				}
+			}
+		}
+	}
+	return made > 0
 }
 
 // rootFuncs: the functions of a package that are analysed on their own.
@@ -399,4 +443,32 @@ func constPath(lv *T) bool {
 func (w *World) readOnlyGlobal(name string) bool {
 	w.initialValue(&T{Op: "global", S: name})
 	return w.globalRO[name]
+}
+
+// privateCell: a heap cell the compiler made for a local variable that is
+// captured by function literals, all of which are expanded in place: only the
+// function itself (and those literals) can read or write it.
+func (w *World) privateCell(a *ssa.Alloc) bool {
+	if !a.Heap || a.Referrers() == nil {
+		return false
+	}
+	closures := 0
+	for _, ref := range *a.Referrers() {
+		switch r := ref.(type) {
+		case *ssa.Store:
+			if r.Val == ssa.Value(a) {
+				return false // the address itself is stored somewhere
+			}
+		case *ssa.UnOp, *ssa.DebugRef, *ssa.FieldAddr, *ssa.IndexAddr:
+		case *ssa.MakeClosure:
+			fn, ok := r.Fn.(*ssa.Function)
+			if !ok || !w.closureCovered(fn) {
+				return false
+			}
+			closures++
+		default:
+			return false
+		}
+	}
+	return closures > 0
 }
